@@ -73,6 +73,20 @@ class Gen:
                 self.emit(f"j {head}", "jump")
                 self.emit(f"{end}:", None, indent=False)
                 ctx["counters"].append(c)
+            elif k < 0.76 and depth < 2 and ctx["counters"]:
+                # bottom-tested (rotated) loop: entered by a jump to the test below the body
+                self.stats["loops"] += 1
+                self.stats["rotated_loops"] = self.stats.get("rotated_loops", 0) + 1
+                c = ctx["counters"].pop()
+                body, test = self.fresh("rbody"), self.fresh("rtest")
+                self.emit(f"li {c}, {r.choice([2, 3, 5])}", "li-counter")
+                self.emit(f"j {test}", "jump")
+                self.emit(f"{body}:", None, indent=False)
+                self.stmts(ctx, depth + 1)
+                self.emit(f"addi {c}, {c}, -1", "arith")
+                self.emit(f"{test}:", None, indent=False)
+                self.emit(f"{r.choice(['bgtz', 'bnez'])} {c}, {body}", "branch")
+                ctx["counters"].append(c)
             elif k < 0.85 and ctx["callees"]:
                 self.stats["calls"] += 1
                 f = r.choice(ctx["callees"])
